@@ -412,7 +412,13 @@ func c15LoessExact(xs, ys []float64, degree, q int, x float64) (vals []float64, 
 
 func c15LoessCheck(c *C15Loess, r *core.Rec) {
 	n := len(c.Xs)
-	q := int(math.Ceil(c.Span * float64(n)))
+	// q = ceil(span*n) in exact arithmetic on the float span (the statement's formula)
+	prod := ref.Mul(ref.R(c.Span), ref.RI(int64(n)))
+	qi := new(big.Int).Div(prod.Num(), prod.Denom())
+	q := int(qi.Int64())
+	if new(big.Rat).SetInt(qi).Cmp(prod) != 0 {
+		q++
+	}
 	if q > n {
 		q = n
 	}
@@ -645,6 +651,15 @@ func c15Run(c *core.Ctx) {
 						lc.Perms = n <= permN && yi == 1
 						r.Case("loess", lc)
 						r.Try(func() { c15LoessCheck(lc, r) })
+					}
+					// spans for which span*n is an exact integer (dyadic, so exact in float64 too):
+					// the window is exactly span*n points, not one more
+					for _, sp := range []float64{0.25, 0.5, 0.75} {
+						if w := sp * float64(n); w == math.Floor(w) && int(w) >= degree+2 && int(w) < n {
+							lc.Xs, lc.Ys, lc.Degree, lc.Span, lc.Perms = xs, ys, degree, sp, false
+							r.Case("loess", lc)
+							r.Try(func() { c15LoessCheck(lc, r) })
+						}
 					}
 				}
 			}
